@@ -494,21 +494,7 @@ class RunLengthArray(NPSIndexable, np.lib.mixins.NDArrayOperatorsMixin):
     def _get_slice(self, s: slice) -> 'RunLengthArray':
         step = 1 if s.step is None else s.step
         is_reverse = step < 0
-        start = 0
-        end = len(self)
-        if is_reverse:
-            start, end = (end-1, start-1)
-        if s.start is not None:
-            if s.start < 0:
-                start = len(self)+s.start
-            else:
-                start = s.start
-
-        if s.stop is not None:
-            if s.stop < 0:
-                end = len(self)+s.stop
-            else:
-                end = s.stop
+        start, end, _ = s.indices(len(self))
         if is_reverse:
             start, end = (end+1, start+1)
         if start >= end:
